@@ -1273,11 +1273,11 @@ static int count_open_fds (void)
   return n - 1; /* the DIR's own fd */
 }
 
-/* MKFD <count> : create <count> more tagged temp files; fd index k has offset 1000+k */
+/* MKFD <count> : make sure <count> tagged temp files exist; fd index k has offset 1000+k */
 static void cmd_mkfd (int argc, char **argv)
 {
   int want = argc > 1 ? atoi (argv[1]) : 1, i;
-  for (i = 0; i < want && nfdtab < MAX_FDS; i++)
+  for (i = 0; nfdtab < want && nfdtab < MAX_FDS; i++)     /* idempotent: make sure <count> tagged files exist */
     {
       char path[300]; int fd;
       snprintf (path, sizeof path, "%s/fdtag-%d-%d", rundir, (int) getpid (), nfdtab);
